@@ -455,6 +455,59 @@ class ProgGen:
 		self.count(f'generic-chain:{arg if arg != base else "class"}:{len(chain) - 1}')
 		return out, body
 
+	def generic_deep_block(self) -> tuple[list[str], list[str]]:
+		"""A generic class over two type variables whose attributes mention them NESTED two or three levels deep (`dict[K, list[V]]`,
+		`list[list[V]]`, `list[tuple[K, V]]`, `dict[str, dict[K, V]]`, next to the flat `dict[K, V]` / `V`), instantiated two or three
+		times with DIFFERENT type arguments in one function; the attributes are read — and indexed into — through every instance, in a
+		random interleaved order, some reads repeated: each read has to be typed by the arguments of ITS receiver, whatever was inferred
+		before (`templates.Class.prop`, helper/template.py:70-90, substitutes into a copy of the declared type).
+		Returns (definitions, body lines of the entry function)."""
+		rng = self.rng
+		out: list[str] = []
+		body: list[str] = []
+		cls = self.fresh('X')
+		forms = [('table', 'dict[TK, list[TV]]', '{key: [value]}', ['{r}[{k}]', '{r}[{k}][0]']),
+			('rows', 'list[list[TV]]', '[[value], [value]]', ['{r}[0]', '{r}[1][0]', '[z for z in {r}]']),
+			('pairs', 'list[tuple[TK, TV]]', '[(key, value)]', ['{r}[0]', '{r}[0][1]', '{r}[0][0]']),
+			('nested', 'dict[str, dict[TK, TV]]', '{"n": {key: value}}', ['{r}["n"]', '{r}["n"][{k}]']),
+			('deep', 'dict[TK, dict[str, list[TV]]]', '{key: {"d": [value]}}', ['{r}[{k}]', '{r}[{k}]["d"]', '{r}[{k}]["d"][0]']),
+			('boxed', 'tuple[TK, list[TV]]', '(key, [value])', ['{r}[1]', '{r}[1][0]', '{r}[0]']),
+			('flat', 'dict[TK, TV]', '{key: value}', ['{r}[{k}]']),
+			('one', 'TV', 'value', ['{r}']),
+			('many', 'list[TV]', '[value]', ['{r}[0]'])]
+		attrs = rng.sample(forms[:6], rng.randint(2, 3)) + rng.sample(forms[6:], rng.randint(0, 2))
+		rng.shuffle(attrs)
+		out += ['', '', "TK = TypeVar('TK')", "TV = TypeVar('TV')", '', '', f'class {cls}(Generic[TK, TV]):'] + [f'\t{a}: {t}' for a, t, _, _ in attrs]
+		out += ['', '\tdef __init__(self, key: TK, value: TV) -> None:'] + [f'\t\tself.{a} = {e}' for a, _, e, _ in attrs]
+		keys = [('str', '"a"'), ('int', '1'), ('str', 's'), ('int', 'a')]
+		vals = [('int', '7'), ('str', '"w"'), ('float', '1.5'), ('bool', 'True'), ('list[int]', '[1, 2]'), ('float', 'b')]
+		combos: list[tuple[tuple[str, str], tuple[str, str]]] = []
+		for _ in range(rng.randint(2, 3)):
+			for _ in range(20):
+				k, v = rng.choice(keys), rng.choice(vals)
+				if all(v[0] != v0[0] for _, v0 in combos) and (not combos or rng.random() < 0.7 or all(k[0] != k0[0] for k0, _ in combos)):
+					combos.append((k, v))
+					break
+
+		def decl(expr: str) -> str:
+			v = self.fresh('v')
+			body.append(f'\t{v} = {expr}')
+			return v
+
+		insts = [(decl(f'{cls}({k[1]}, {v[1]})'), k[1]) for k, v in combos]
+		reads = [(o, kx, a, uses) for o, kx in insts for a, _, _, uses in attrs]
+		rng.shuffle(reads)
+		reads += rng.sample(reads, min(2, len(reads)))          # the same read again, later
+		for o, kx, a, uses in reads:
+			r = decl(f'{o}.{a}')
+			u = rng.random()
+			if u < 0.5:
+				decl(rng.choice(uses).format(r=r, k=kx))
+			elif u < 0.7:
+				decl(rng.choice(uses).format(r=f'{o}.{a}', k=kx))
+		self.count(f'generic-deep:{len(combos)}-instances:{len(attrs)}-attrs')
+		return out, body
+
 	def operator_block(self) -> tuple[list[str], list[str]]:
 		"""User classes that overload binary operators (OperationTrait.try_operation, traits.py:178-225, incl. the `inherits` loop that
 		accepts an operand of a DERIVED class for a parameter of the base class): a root class declaring two to four operators over its
@@ -648,6 +701,10 @@ class ProgGen:
 				cdefs2, cbody2 = self.generic_chain_block(base)
 				out += cdefs2
 				generic_body += cbody2
+			if rng.random() < 0.85:
+				ddefs, dbody = self.generic_deep_block()
+				out += ddefs
+				generic_body += dbody
 		callback_body: list[str] = []
 		if use_callbacks:
 			cdefs, callback_body = self.callback_block()
